@@ -114,6 +114,12 @@ def runCase (hdr : List String) (ops : List String) : List String :=
   -- carry: `aesCBCEncrypt … key iv` etc. are pure), so the answers are those of mode `x`;
   -- the comparison checks that the real code has no memory of earlier calls either.
   | ["hist"] => "ok" :: ops.map fun l => step (toks l)
+  -- arena mode: the harness passes dst, plaintext/ciphertext, key, iv/nonce and additional data
+  -- of every call as windows of ONE arena (both orders, adjacent or apart, with or without
+  -- spare capacity) and checks that nothing outside the dst window changed.  The model's entry
+  -- points take and return VALUES: where the arguments live is not an input, and the only
+  -- output is the new content of dst — so the answers are again those of mode `x`.
+  | ["arena"] => "ok" :: ops.map fun l => step (toks l)
   | _ => "bad-op" :: ops.map fun _ => "bad-op"
 
 end Golib.C08
